@@ -152,7 +152,10 @@ type SListener struct {
 	fail   error // the next Accept returns this error once (environment fault)
 	closed bool
 	Closes int
-	mu     sync.Mutex
+	// CloseErr is what Close reports (after it has closed the listener), e.g. because the owner of the listener
+	// had closed it already
+	CloseErr error
+	mu       sync.Mutex
 }
 
 func NewSListener(conns ...net.Conn) *SListener { return &SListener{queue: conns} }
@@ -194,7 +197,7 @@ func (l *SListener) Close() error {
 	}
 	l.closed = true
 	l.Closes++
-	return nil
+	return l.CloseErr
 }
 
 //go:norace
